@@ -726,11 +726,179 @@ func c17Tables(c *mc.Check) {
 	f.Done()
 }
 
+// ---- histories: results added and tables requested in any order ----
+
+var c17HistOps = []string{"a0", "a1", "a2", "b0", "b1", "T"}
+
+func c17Block(op string) (cfg, bench string, vals []float64) {
+	switch op {
+	case "a0":
+		return "a", "A", []float64{10, 11, 12, 13, 14}
+	case "a1":
+		return "a", "A", []float64{200, 201, 202, 203, 204, 205, 206}
+	case "a2":
+		return "a", "B", []float64{7, 8, 9}
+	case "b0":
+		return "b", "A", []float64{20, 21, 22, 23, 24}
+	case "b1":
+		return "b", "A", []float64{18, 19}
+	}
+	return "", "", nil
+}
+
+func c17CheckHistory(ops []string) string {
+	c := &Collection{}
+	var configs, benches []string
+	vals := map[[2]string][]float64{}
+	for step, op := range ops {
+		if op != "T" {
+			cfg, bench, vs := c17Block(op)
+			var b strings.Builder
+			for _, v := range vs {
+				fmt.Fprintf(&b, "Benchmark%s 1 %v ns/op\n", bench, v)
+			}
+			c.AddConfig(cfg, []byte(b.String()))
+			configs = append(configs, cfg)
+			found := false
+			for _, x := range benches {
+				if x == bench {
+					found = true
+				}
+			}
+			if !found {
+				benches = append(benches, bench)
+			}
+			k := [2]string{cfg, bench}
+			vals[k] = append(vals[k], vs...)
+			continue
+		}
+		if len(configs) == 0 {
+			continue
+		}
+		// reference for the state reached so far
+		t := expTable{metric: "time/op"}
+		for _, bench := range benches {
+			row := expRow{bench: bench}
+			var rv [][]float64
+			for _, cfg := range configs {
+				all, ok := vals[[2]string{cfg, bench}]
+				if !ok {
+					row.cells = append(row.cells, expCell{})
+					rv = append(rv, nil)
+					continue
+				}
+				kept, amb := retained(all)
+				if amb {
+					return ""
+				}
+				cell := expCell{present: true, n: len(kept), kept: kept}
+				cell.min, cell.max = kept[0], kept[0]
+				for _, v := range kept {
+					cell.min, cell.max = math.Min(cell.min, v), math.Max(cell.max, v)
+				}
+				cell.mean = meanOf(kept)
+				row.cells = append(row.cells, cell)
+				rv = append(rv, kept)
+			}
+			if len(configs) == 2 {
+				if !row.cells[0].present || !row.cells[1].present {
+					continue
+				}
+				row.delta = "~"
+				r, err := stats.MannWhitneyUTest(rv[0], rv[1], stats.LocationDiffers)
+				if err != nil {
+					row.note = errReason(err)
+				} else {
+					if r.P < 0.05 {
+						if row.cells[1].mean == row.cells[0].mean {
+							row.delta = "0.00%"
+						} else {
+							row.pct = (row.cells[1].mean/row.cells[0].mean - 1) * 100
+							row.delta = fmt.Sprintf("%+.2f%%", row.pct)
+							row.change = 1
+							if row.pct > 0 {
+								row.change = -1
+							}
+						}
+					}
+					row.note = fmt.Sprintf("(p=%0.3f n=%d+%d)", r.P, row.cells[0].n, row.cells[1].n)
+				}
+			}
+			t.rows = append(t.rows, row)
+		}
+		want := []expTable{t}
+		if len(t.rows) == 0 {
+			want = nil
+		}
+		if m := compareTables(c.Tables(), want, c17Spec{Configs: len(configs)}); m != "" {
+			return fmt.Sprintf("Tables() after step %d of %v: %s", step, ops, m)
+		}
+	}
+	return ""
+}
+
+func c17Histories(c *mc.Check, depth int) {
+	replay := func(raw json.RawMessage) string {
+		var ops []string
+		json.Unmarshal(raw, &ops)
+		var msg string
+		if p := mc.Catch(func() { msg = c17CheckHistory(ops) }); p != "" {
+			return p
+		}
+		return msg
+	}
+	f := c.Family("add-and-ask-histories", fmt.Sprintf("every sequence of ≤%d operations from {add more values for an existing key, add a new benchmark, add to a second configuration, ask for Tables()} on one collection: every Tables() answer equals the reference computed from everything added so far (retained values, means, delta, p and sizes), whatever was asked before; non-trivial = sequences with a Tables() call followed by an addition and another Tables() call", depth), replay)
+	if c.Replaying() {
+		return
+	}
+	en := mc.NewStrings(c17HistOps, depth)
+	mc.ParRange(en.Total(), 64, c.TimeUp, func(w int, lo, hi uint64) {
+		l := f.Local()
+		var sym []int
+		for i := max(lo, 1); i < hi; i++ {
+			sym = en.Symbols(i, sym)
+			ops := make([]string, len(sym))
+			for j, k := range sym {
+				ops[j] = c17HistOps[k]
+			}
+			if ops[len(ops)-1] != "T" {
+				continue
+			}
+			var msg string
+			if p := mc.Catch(func() { msg = c17CheckHistory(ops) }); p != "" {
+				msg = p
+			}
+			l.Evals++
+			seenT, addAfter := false, false
+			for _, o := range ops[:len(ops)-1] {
+				if o == "T" {
+					seenT = true
+				} else if seenT {
+					addAfter = true
+				}
+			}
+			if addAfter {
+				l.Nontrivial++
+				l.Outcome("ask-add-ask")
+			} else {
+				l.Outcome("plain")
+			}
+			if msg != "" {
+				c.Fail(f, "history", ops, msg)
+			}
+		}
+		l.Flush()
+	})
+	f.Sample([]string{"a0", "T", "a1", "T"})
+	f.Done()
+}
+
 func TestVerifC17(t *testing.T) {
 	c := mc.NewCheck("C17")
 	c.Assume("p-values of the chosen test come from internal/stats (checked by C11/C12) on the retained values computed by the reference")
 	c.Assume("values within 1e-12 (relative) of an outlier fence are skipped: floating-point rounding of the fence legitimately decides them either way")
 	c17Tables(c)
+	c17Histories(c, mc.Pick(c, 5, 6))
 	if code := c.Finish(); code != 0 {
 		os.Exit(code)
 	}
